@@ -342,6 +342,9 @@ def conditions(tier):
     for name, (sk, exp, hp) in FAM.items():
         unknown = name.startswith('U_')
         ctxs = ('SU',) if unknown else ('S', 'SU')
+        if quick and not unknown:
+            # quick: one context per family (the fallback context for every fourth family)
+            ctxs = ('SU',) if (len(conds) % 4 == 0) else ('S',)
         vs = variants(sk)
         if quick:
             vs = vs[:2]
@@ -375,8 +378,8 @@ META = dict(
                       'comments incl. between macro and argument, specials with longest match, paragraph breaks, verbatim, depth-2 '
                       'nestings, unknown macro/environment with fallback); content holes = any ASCII letter or digit, whitespace holes = any '
                       'str.isspace() character (all present / all absent), continuation hole = any non-active character; under the '
-                      'context with and without unknown-macro fallback',
-                thorough='additionally each whitespace hole present alone'),
+                      'compact context (every fourth family under the variant with unknown-macro fallback)',
+                thorough='every family under both contexts; additionally each whitespace hole present alone'),
     stubs=['logging disabled', 'step budget'],
     outside=['derivations other than the listed families', 'holes longer than one character', 'the default context (covered by C07/C10 '
              'only for totality and math mode)'],
